@@ -92,3 +92,17 @@ Theorem C08_flat_hyp_check_sound : forall t, flat_hyp_check t = true ->
   (forall k e, alookup t k = Some e -> e_rest e = e_prob e) /\
   (forall k e, alookup t k = Some e -> e_ext e = true -> (2 <= length k)%nat -> exists x, alookup t (x :: k) <> None).
 Proof. exact flat_hyp_check_sound. Qed.
+
+(* lm/partial.hh Subsume: merging two adjacent finished fragments gives the finished fragment of their concatenation
+   (left state, right state) and the adjustment is exactly the whole minus the parts: score(us ++ ws) = score(us) +
+   score(ws) + adjustment.  (mkrs P r d p is the rule state with pointers P, right state r, completeness d, score p.) *)
+Theorem C08_subsume_is_concatenation : forall n T M, (2 <= n)%nat -> TInv n T M ->
+  (forall k e, T k = Some e -> e_rest e = e_prob e) ->
+  (forall k e, T k = Some e -> e_ext e = true -> (2 <= length k)%nat -> exists x, T (x :: k) <> None) ->
+  forall us ws, Forall (known T) us -> Forall (known T) ws ->
+  forall adj l' r',
+  subsume n T false (c_left (fst (rs_finish n (flat n T rs_init us)))) (c_right (fst (rs_finish n (flat n T rs_init us))))
+                    (c_left (fst (rs_finish n (flat n T rs_init ws)))) (c_right (fst (rs_finish n (flat n T rs_init ws)))) = (adj, l', r') ->
+  rs_finish n (mkrs (l_ptrs l') r' (l_full l') (snd (rs_finish n (flat n T rs_init us)) + snd (rs_finish n (flat n T rs_init ws)) + adj)) =
+  rs_finish n (flat n T rs_init (us ++ ws)).
+Proof. intros n T M Hn I Hr Hx us ws Hu Hw adj l' r' HS. exact (subsume_flat n Hn T M I Hr Hx us ws Hu Hw adj l' r' HS). Qed.
